@@ -21,7 +21,9 @@
    compile_emit_expr, Slice, Tuple, Map, method and object calls, splats, SetAttr targets, Do,
    blocks / extends / include / import, line and span bookkeeping, the LocalId cache slots of
    ApplyFilter / PerformTest. *)
-From MJ Require Import Common.Base Lang.Syntax Lang.Meta Lang.Interp C04.Model L2.Instr.
+From MJ Require Import Common.Base Lang.Syntax Lang.Meta Lang.Interp.
+From MJ Require Import C04.Model.
+From MJ Require Import L2.Instr.
 Local Open Scope nat_scope.
 
 (* ---- list-walking combinators (outside the big fixpoints, like those of Lang/Interp.v) ---- *)
